@@ -1598,20 +1598,9 @@ impl Transaction {
         // outputs created more than a genesis period ago have been rebroadcast or
         // collected by the ATR mechanism and can no longer be spent by their owner
         //
-        if validate_against_utxo
-            && self.transaction_type != TransactionType::ATR
-            && self.transaction_type != TransactionType::Issuance
-        {
-            let oldest_spendable_block_id =
-                (blockchain.get_latest_block_id() + 1).saturating_sub(blockchain.genesis_period);
-            if self.from.iter().any(|slip| {
-                slip.amount > 0
-                    && slip.slip_type != SlipType::Bound
-                    && slip.block_id < oldest_spendable_block_id
-            }) {
-                error!("ERROR 582041: transaction spends an input older than the genesis period");
-                return false;
-            }
+        if validate_against_utxo && self.spends_expired_input(blockchain) {
+            error!("ERROR 582041: transaction spends an input older than the genesis period");
+            return false;
         }
 
         //
@@ -1623,6 +1612,24 @@ impl Transaction {
         } else {
             true
         };
+    }
+
+    /// true if a value-carrying input was created more than a genesis period before the
+    /// next block (such outputs have been rebroadcast or collected by the ATR mechanism)
+    pub fn spends_expired_input(&self, blockchain: &Blockchain) -> bool {
+        if self.transaction_type == TransactionType::ATR
+            || self.transaction_type == TransactionType::Issuance
+            || self.transaction_type == TransactionType::Fee
+        {
+            return false;
+        }
+        let oldest_spendable_block_id =
+            (blockchain.get_latest_block_id() + 1).saturating_sub(blockchain.genesis_period);
+        self.from.iter().any(|slip| {
+            slip.amount > 0
+                && slip.slip_type != SlipType::Bound
+                && slip.block_id < oldest_spendable_block_id
+        })
     }
 
     pub fn validate_against_utxoset(&self, utxoset: &UtxoSet) -> bool {
